@@ -1,8 +1,14 @@
 """C17 worker -- runs in a *fresh interpreter* (own PYTHONHASHSEED) and executes a batch of seeded
 API calls of /repo's cotengra, printing one canonical JSON result per case.
 
-stdin : {"repo": path, "perturb": int, "order": [case positions], "cases": [case, ...]}
-stdout: {"results": {"<pos>": canonical, ...}}
+stdin : {"repo": path, "perturb": int, "order": [case positions], "cases": [case, ...],
+         "same_object": bool}
+stdout: {"results": {"<pos>": canonical, ...}, "selfcheck": {"<pos>": [labels that differ]}}
+
+A case may carry a "history": in-place warm-up operations applied to the tree object before the
+call (identically in every interpreter).  With "same_object" the identical call is repeated on
+the SAME object, on copies, after a call with another seed, and through the inplace variant
+(`same_object_checks`) -- the result must not depend on what was called before.
 
 Before every call the process-global `random` and `numpy.random` generators are re-seeded from
 (`perturb`, position) and a pseudo-random number of draws is consumed, so that between two workers
@@ -172,36 +178,132 @@ def run_api(ctg, case):
 
     # ---- operations on trees -------------------------------------------------------------------
     tree = _tree(ctg, case)
-    if api == "slice":
-        t = tree.slice(seed=seed, **o)
-        return _canon_tree(t)
+    apply_history(ctg, tree, case)
+    return tree_call(ctg, tree, api, seed, o)
+
+
+TREE_APIS = ("slice", "SliceFinder", "unslice_rand", "get_subtree", "subtree_reconfigure",
+             "subtree_reconfigure_forest", "simulated_anneal", "parallel_temper")
+INPLACE = {"slice": "slice_", "unslice_rand": "unslice_rand_", "subtree_reconfigure": "subtree_reconfigure_",
+           "subtree_reconfigure_forest": "subtree_reconfigure_forest_", "simulated_anneal": "simulated_anneal_",
+           "parallel_temper": "parallel_temper_"}
+
+
+def _kwargs(api, seed, o):
+    kw = dict(o)
+    if api == "subtree_reconfigure_forest":
+        for k in ("subtree_search", "subtree_select", "subtree_weight_what", "subtree_weight_pwr"):
+            if k in kw:
+                kw[k] = tuple(kw[k])
+        kw["parallel"] = False
+    if api == "parallel_temper":
+        kw["parallel"] = False
+    kw["seed"] = seed
+    return kw
+
+
+def tree_call(ctg, tree, api, seed, o, inplace=False):
+    """one seeded call on the given tree object; canonical result"""
     if api == "SliceFinder":
         sf = ctg.SliceFinder(tree, seed=seed, **o)
         ix_sl, cost = sf.search(max_repeats=6)
         return {"sliced": sorted(ix_sl), "flops": str(int(cost.total_flops)), "ncand": len(sf.costs)}
-    if api == "unslice_rand":
-        return _canon_tree(tree.unslice_rand(seed=seed))
     if api == "get_subtree":
         node = sorted(tree.children, key=lambda x: (-len(x), sorted(x)))[o.get("which", 0) % len(tree.children)]
         leaves, branches = tree.get_subtree(node, o.get("size", 4), search=o.get("search", "random"), seed=seed)
         return [[sorted(x) for x in leaves], [sorted(x) for x in branches]]
-    if api == "subtree_reconfigure":
-        t = tree.subtree_reconfigure(seed=seed, **o)
-        return _canon_tree(t)
-    if api == "subtree_reconfigure_forest":
-        kw = dict(o)
-        for k in ("subtree_search", "subtree_select", "subtree_weight_what", "subtree_weight_pwr"):
-            if k in kw:
-                kw[k] = tuple(kw[k])
-        t = tree.subtree_reconfigure_forest(seed=seed, parallel=False, **kw)
-        return _canon_tree(t)
-    if api == "simulated_anneal":
-        t = tree.simulated_anneal(seed=seed, **o)
-        return _canon_tree(t)
-    if api == "parallel_temper":
-        t = tree.parallel_temper(seed=seed, parallel=False, **o)
-        return _canon_tree(t)
-    raise ValueError("unknown api " + api)
+    name = INPLACE[api] if inplace else api
+    t = getattr(tree, name)(**_kwargs(api, seed, o))
+    return _canon_tree(t)
+
+
+def apply_history(ctg, tree, case):
+    """warm-up history on the tree object itself, the same in every interpreter: it exercises the
+    caches an object carries (already_optimized, contraction_cores, tracked totals, info)"""
+    for op in case.get("history", []):
+        try:
+            _history_op(ctg, tree, case, op)
+        except Exception:  # noqa: BLE001  (e.g. "Ran out of valid indices to slice": same everywhere)
+            pass
+
+
+def _history_op(ctg, tree, case, op):
+    if True:
+        kind, arg = op[0], (op[1] if len(op) > 1 else {})
+        if kind == "reconf_":
+            tree.subtree_reconfigure_(**arg)
+        elif kind == "forest_":
+            tree.subtree_reconfigure_forest_(parallel=False, **arg)
+        elif kind == "anneal_":
+            tree.simulated_anneal_(**arg)
+        elif kind == "stats":
+            tree.contract_stats()
+            tree.get_path()
+            tree.contraction_width()
+            tree.peak_size()
+        elif kind == "contractor":
+            tree.get_contractor()
+        elif kind == "slice_unslice":
+            tree.slice_(target_slices=2, seed=arg.get("seed", 0))
+            tree.unslice_all_()
+        elif kind == "seeded_other":
+            # the same API, another seed, result discarded (non-inplace)
+            tree_call(ctg, tree, case["api"], arg["seed"], dict(case.get("opts", {})))
+        else:
+            raise ValueError("unknown history op " + str(kind))
+
+
+def same_object_checks(ctg, case, first):
+    """Repeat the identical seeded call on the SAME object (and on copies of it) inside this
+    interpreter.  Returns the list of comparisons that differ (empty = deterministic):
+      repeat        the same non-inplace call again on the same object
+      copy          ... on a copy taken now
+      after-other   ... again after a call with another seed
+      inplace-copies / inplace-original   the inplace variant on two copies taken at the same
+                    moment, and on the original itself"""
+    api, seed, o = case["api"], case["seed"], dict(case.get("opts", {}))
+    bad = []
+    if api not in TREE_APIS:
+        try:
+            again = run_api(ctg, case)
+        except Exception as e:  # noqa: BLE001
+            again = {"exception": type(e).__name__}
+        if _k(again) != _k(first):
+            bad.append("repeat")
+        return bad
+    tree = _tree(ctg, case)
+    apply_history(ctg, tree, case)
+
+    def call(t, inplace=False, sd=seed):
+        try:
+            return _k(tree_call(ctg, t, api, sd, o, inplace=inplace))
+        except Exception as e:  # noqa: BLE001
+            return _k({"exception": type(e).__name__})
+
+    r1 = call(tree)
+    if r1 != _k(first):
+        bad.append("rebuilt")          # an identically prepared twin object
+    if call(tree) != r1:
+        bad.append("repeat")
+    if call(tree.copy()) != r1:
+        bad.append("copy")
+    call(tree, sd=seed + 12345)
+    if call(tree) != r1:
+        bad.append("after-other")
+    if api in INPLACE:
+        c1, c2 = tree.copy(), tree.copy()
+        i1, i2 = call(c1, inplace=True), call(c2, inplace=True)
+        if i1 != i2:
+            bad.append("inplace-copies")
+        if call(tree, inplace=True) != i1:
+            bad.append("inplace-original")
+    return bad
+
+
+def _k(r):
+    if isinstance(r, dict) and "exception" in r:
+        return json.dumps({"exception": r["exception"]})
+    return json.dumps(r, sort_keys=True)
 
 
 def _perturb_globals(perturb, pos, np):
@@ -223,6 +325,7 @@ def main():
     import cotengra as ctg
     assert os.path.realpath(ctg.__file__).startswith(os.path.realpath(job["repo"])), ctg.__file__
     results = {}
+    selfcheck = {}
     cases = job["cases"]
     for pos in job.get("order") or range(len(cases)):
         case = cases[pos]
@@ -232,7 +335,11 @@ def main():
         except Exception as e:  # the error class is part of the observable result
             out = {"exception": type(e).__name__, "msg": str(e)[:120]}
         results[str(pos)] = out
-    json.dump({"results": results, "hashseed": os.environ.get("PYTHONHASHSEED"),
+        if job.get("same_object"):
+            bad = same_object_checks(ctg, case, out)
+            if bad:
+                selfcheck[str(pos)] = bad
+    json.dump({"results": results, "selfcheck": selfcheck, "hashseed": os.environ.get("PYTHONHASHSEED"),
                "probe": hash("cotengra") % 1000}, sys.stdout)
 
 
